@@ -1,6 +1,8 @@
 """Hot/cold shard protocol rules for histograms (C02 and C03)."""
+import re
+
 from pvrules.mir import is_call, peel, show, strip_generics, subterms
-from pvrules.rules import SELF_FIELD, atomic_prim, bypass_guards, const_eval, is_zero_skip_filter, const_int, count_range, elem_of, ord_ge, ordering_of, skips_only_zero
+from pvrules.rules import SELF_FIELD, atomic_prim, bypass_guards, const_eval, elem_src, is_zero_skip_filter, const_int, count_range, elem_of, ord_ge, ordering_of, skips_only_zero
 from . import hist_common as hcm
 from . import vec_common as vc
 
@@ -63,6 +65,14 @@ def shard_events(b):
         if is_call(recv, "Index::index"):
             idx = peel(recv[2][1])
             recv = peel(recv[2][0])
+        else:
+            # a bucket cell reached as the element of an iteration over `shard.buckets` (walked in lock step with other sequences by zip)
+            es = elem_src(peel(recv))
+            if es and not es[2] and not [a for a in es[1] if a not in ("zip", "iter", "into_iter")]:
+                coll = peel(es[0])
+                if isinstance(coll, tuple) and coll[0] == "field" and coll[2] == "buckets":
+                    idx = ("pos", es[3])
+                    recv = coll
         recv = peel(recv)
         if not (recv[0] == "field" and recv[2] in ("count", "sum", "buckets")):
             continue
@@ -136,11 +146,22 @@ def rule_observe_shape(ctx, f, rid, path, key, is_flush):
     return b, e1, el, rest
 
 
+def proto_body(f, b):
+    """proto with `..zip(..).map(|..| {..}).collect()` written out as the loop it is (when the bucket walk is not a `for` loop already)."""
+    if not [e for e in shard_events(b) if e["comp"] == "buckets"]:
+        from pvrules import inline
+        b2 = inline.desugar_map_collect(f, b)
+        if b2 is not None:
+            return b2
+    return b
+
+
 def rule_proto_shape(ctx, f, rid):
     b = ctx.anchor(rid, "HistogramCore::proto", f.body(H + "HistogramCore::proto"))
     if not b:
         return None
     ctx.saw(b)
+    b = proto_body(f, b)
     evs = shard_events(b)
     locks = [c for c in b.calls_to("Mutex::lock") if is_core_field(c.args[0], "collect_lock")]
     ok = len(locks) == 1 and all(b.dominates(locks[0].bb, e["bb"]) for e in evs)
@@ -323,8 +344,9 @@ def rule_R4_R5(ctx, f):
         sp = b.calls_to("split_shard_index_and_count")
         okr = len(sp) == 1 and fa and sp[0].args[0] == fa[0].result_term() and b.term_local(0) == sp[0].result_term()
         ctx.ob("R5", "inc_by|one-fetch-add", ok and okr, "inc_by must be one fetch_add(delta, ordering) on the cell, returning the split previous value", site=b.raw["span"]["at"])
-    b = ctx.anchor("R5", "ShardAndCount::inc", f.body(SAC + "inc"))
+    b = f.body(SAC + "inc")      # a convenience wrapper: when it is gone its callers use inc_by directly, which R1's event rules see
     if b:
+        ctx.anchor("R5", "ShardAndCount::inc", b)
         ctx.saw(b)
         cs = b.calls_to("ShardAndCount::inc_by")
         ok = len(cs) == 1 and cs[0].args[0] == P(1) and const_int(cs[0].args[1]) == 1 and cs[0].args[2] == P(2) and b.term_local(0) == cs[0].result_term()
@@ -472,9 +494,16 @@ def rule_C03(ctx, f):
         mb = [e for e in merges if e["comp"] == "buckets"]
         ok = len(db) == 1 and len(mb) == 1
         if ok:
-            ei = elem_of(db[0]["idx"])
             ok = db[0]["op"] == "swap" and const_int(db[0]["call"].args[1]) == 0 and peel(mb[0]["call"].args[1]) == db[0]["call"].result_term() and db[0]["idx"] == mb[0]["idx"]
-            ok = ok and bool(ei) and is_core_field(ei[0], "upper_bounds") and ei[2] == ["0"] and not [a for a in ei[1] if a not in ("iter", "into_iter", "enumerate")]
+            if ok and isinstance(db[0]["idx"], tuple) and db[0]["idx"][0] == "pos":
+                # lock-step walk: the same iteration step yields the cold cell, the hot cell and the bound (all three plain iterations zipped together)
+                nxc = db[0]["idx"][1]
+                srcs = [x for x in subterms(nxc[2][0]) if isinstance(x, tuple) and len(x) == 3 and x[0] == "field" and x[2] in ("upper_bounds", "buckets")]
+                ok = any(x[2] == "upper_bounds" and is_core_field(x, "upper_bounds") for x in srcs) and len([x for x in srcs if x[2] == "buckets"]) == 2
+                ei = None
+            else:
+                ei = elem_of(db[0]["idx"])
+                ok = ok and bool(ei) and is_core_field(ei[0], "upper_bounds") and ei[2] == ["0"] and not [a for a in ei[1] if a not in ("iter", "into_iter", "enumerate")]
             # once per iteration
             nx = [c for c in b.calls_to("Iterator::next") if db[0]["bb"] in b.reach(c.bb)]
             if ok and nx:
@@ -528,9 +557,10 @@ def rule_C03(ctx, f):
         bb = f.bodies[k]
         if "histogram" not in bb.path:
             continue
-        for e in shard_events(bb):
+        for e in shard_events(proto_body(f, bb) if strip_generics(bb.path).endswith("HistogramCore::proto") else bb):
             if e["op"] not in ("get",):
-                writers.setdefault(e["comp"], set()).add(strip_generics(bb.path).replace("prometheus::histogram::", ""))
+                # (events inside a closure belong to the function that contains the closure)
+                writers.setdefault(e["comp"], set()).add(re.sub(r"(::\{closure#\d+\})+$", "", strip_generics(bb.path)).replace("prometheus::histogram::", ""))
     allowed = {"HistogramCore::observe", "LocalHistogramCore::flush", "HistogramCore::proto"}
     for comp in ("sac", "count", "sum", "buckets"):
         ctx.ob("R5", "writers|" + comp, writers.get(comp, set()) == allowed, "%s must be written exactly by observe, flush and proto (found %s)" % (comp, sorted(writers.get(comp, []))))
